@@ -17,18 +17,28 @@ META = {
     "level": "proof",
     "level_text": "props/C17.v: over the transition system of model/Server.v (accept loop, clients sending ANY bytes and leaving gracefully or abruptly, per-client "
                   "workers, the pool's poller and workers, close()) and for every reachable state: close() shuts the listener, empties Server.clients and shuts down every "
-                  "connection still being served in that very step (threaded and one-shot unconditionally; thread pool and forking guarded by the regenerated facts, with "
-                  "refutation theorems carrying the witness [Accept c; Close]); every connection's on_disconnect runs at most once and exactly once after close however the "
+                  "connection still being served in that very step (threaded and one-shot unless a socket-replacing authenticator meets a worker that does not re-register "
+                  "the socket it serves; thread pool and forking guarded by the regenerated facts; refutation theorems carry the witnesses [Accept c; Close]); accept() is ONE "
+                  "step of the model, which is faithful exactly on a tree that re-checks _closed after clients.add (fact accept_rechecks_closed, hypothesis of the close theorems; "
+                  "c17_accept_close_race_harmless / _refuted treat the window separately); every connection's on_disconnect runs at most once and exactly once after close however the "
                   "remaining events interleave; a second close is the identity; at quiescence no table (clients, fd_to_conn, poll set, queue, worker slots) mentions a departed "
-                  "client; a one-shot server accepts exactly one connection and is closed once that connection ends. Proof is the right level: the statement quantifies over "
+                  "client; a one-shot server accepts at most one connection, does accept the first one queued, and is closed once that connection ends "
+                  "(a first client that fails authentication is that one connection). Proof is the right level: the statement quantifies over "
                   "unbounded histories and interleavings.",
     "level_note": "Partial for descriptors, threads and child processes: the model counts table entries; /proc/self/fd, the thread count and what each client's socket reads are "
-                  "observed only by the correspondence run. accept() is one atomic step (the window between listener.accept() returning and clients.add is not modelled). "
+                  "observed only by the correspondence run (the forking server's parent: Server.clients, listener and descriptor count after close() are checked, "
+                  "children are not). The correspondence is sequential (one event, then the server's threads settle): concurrent bursts are not produced; the share of events "
+                  "actually compared with the model is reported (events_compared_with_model) and a floor of 75% is enforced; exceptions that end server threads are collected and "
+                  "must be explained by a hostile event of the history. "
                   "Trusted: Coq kernel, pygen templates, extraction + driver, harness; the OS delivers end-of-stream to the peer of a socket that was shut down.",
     "technique": "Coq invariants over an event transition system + regenerated control skeletons and facts + differential correspondence of the extracted model with real servers "
                  "+ implementation-level oracle on sockets, descriptors and threads",
-    "gen": ["server"],
-    "shapes": ["server.*"],
+    "gen": ["server", "channel", "stream", "protocol", "libinit"],
+    "shapes": ["server.*", "channel.*", "stream.SocketStream.*", "stream.Stream.poll", "stream.compat.*", "stream.retry_errnos",
+               "protocol.Connection.serve", "protocol.Connection.serve_all", "protocol.Connection.poll", "protocol.Connection._dispatch",
+               "protocol.Connection._dispatch_request", "protocol.Connection._send", "protocol.Connection.close", "protocol.Connection._cleanup",
+               "protocol.Connection.__init__", "protocol.Connection.sync_request", "protocol.Connection._netref_factory",
+               "protocol.DEFAULT_CONFIG.keys", "libinit.*"],
     "models": ["server"],
     "model_files": ["Server"],
     "assumptions": [
@@ -39,6 +49,8 @@ META = {
 }
 
 KINDS = ["threaded", "pool", "oneshot", "forking"]
+FACT_NAMES = ("pool_close_drops", "pool_fail_discards", "fork_parent_keeps", "pool_catches_base", "worker_tracks_served",
+              "accept_survives_oserror", "accept_rechecks_closed")
 # Every wait whose expiry is a verdict (a reply, end-of-stream, a table emptying, close() returning ...) uses BOUND: generous, so
 # that a loaded machine cannot produce a false violation; it costs nothing when the expected thing happens.  FAST replaces it
 # only after a failure has already been established (in the same history, or earlier in the run).  Starvation verdicts do not
@@ -48,7 +60,7 @@ FAST = float(os.environ.get("VERIF_C17_FAST", "2.0"))
 QUIET = 1.0                                                   # s: how long a reply that nobody expects is waited for
 H = R.H
 AUTH_OK, AUTH_FAIL, AUTH_STALL = 0, 1, 2
-QROOT, QBUMP, QMAKE, QSTR, QDEL, QCLOSE, QKILL = range(7)
+QROOT, QBUMP, QMAKE, QSTR, QDEL, QCLOSE, QKILL, QSTALL = range(8)
 
 
 # ================================================================= facts from the translator
@@ -60,8 +72,7 @@ def gen_facts(repo=None):
     for it in T.translate(repo or C.REPO):
         if it.kind == "typed" and it.coq_type == "bool":
             vals[it.name] = it.coq_term == "true"
-    return [int(vals.get("pool_close_drops", False)), int(vals.get("pool_fail_discards", False)), int(vals.get("fork_parent_keeps", False)),
-            int(vals.get("pool_catches_base", False))]
+    return [int(vals.get(k, False)) for k in FACT_NAMES]
 
 
 # ================================================================= histories -> model scripts
@@ -108,6 +119,24 @@ def model_case(cfg, facts, items):
         elif op == "kill":
             dtbl[b"KILL"] = [QKILL]
             script.append([0, [1, it[1], frame_raw(b"KILL", 0)]])
+        elif op == "stall":
+            dtbl[b"STALL"] = [QSTALL]
+            script.append([0, [1, it[1], frame_raw(b"STALL", 0)]])
+        elif op == "emfile":
+            # a client connects while the process is out of descriptors: accept() fails once (or more) before it succeeds
+            script.append([0, [0, it[1], AUTH_OK]])
+            ckind[it[1]] = "raw"
+            if unix:
+                # a blocking accept() (unix listener: no timeout) reserved its descriptor when it was entered: this client still gets in,
+                # the NEXT accept() call fails at once
+                script.append([1, list(hups)])
+            script.append([0, [9]])
+        elif op == "race":
+            # close() runs to completion while accept() is between its `active` test and clients.add: on a tree that re-checks _closed this is
+            # a close() that wins (the socket is closed by accept itself)
+            script.append([0, [0, it[1], AUTH_OK]])
+            ckind[it[1]] = "raw"
+            script.append([0, [7]])
         elif op == "call":
             pass
         elif op == "leave":
@@ -129,7 +158,7 @@ def model_case(cfg, facts, items):
             raise ValueError(op)
         script.append([1, list(hups)])
         snap.append(len(script) - 1)
-    case = [[kd, facts[0], facts[1], facts[2], facts[3], int(cfg["auth"]), int(cfg["cls"]), cfg["nw"], cfg["batch"]],
+    case = [[kd] + list(facts[:7]) + [int(cfg["auth"]), int(cfg["cls"]), cfg["nw"], cfg["batch"], int(bool(cfg.get("wrap")) and bool(cfg["auth"]))],
             [[k, v] for k, v in dtbl.items()], [[k, v] for k, v in ztbl.items()], script]
     return case, snap, pre
 
@@ -200,6 +229,7 @@ class WatchSet(set):
     def __init__(self, it=()):
         set.__init__(self, it)
         self.log = []
+        self.hold = None          # (reached, go): the next add() announces itself and waits (to place a close() inside accept's window)
 
     def add(self, sk):
         import weakref
@@ -208,6 +238,10 @@ class WatchSet(set):
         except OSError:
             name = None
         self.log.append((weakref.ref(sk), name))
+        hold, self.hold = self.hold, None
+        if hold is not None:
+            hold[0].set()
+            hold[1].wait(BOUND)
         set.add(self, sk)
 
 
@@ -295,6 +329,20 @@ def toy_authenticator(sock):
     if got != b"OKAY":
         raise AuthenticationError("wrong word")
     return sock, "okay"
+
+
+def wrapping_authenticator(sock):
+    """like toy_authenticator, but hands back ANOTHER socket object for the connection (what TLS wrapping does: the original is detached)"""
+    import socket
+    sock, cred = toy_authenticator(sock)
+    return socket.socket(fileno=sock.detach()), cred
+
+
+THREAD_ERRORS = []       # (thread name, exception class) of every thread that ended with an exception in this helper process
+
+
+def _thread_excepthook(args):
+    THREAD_ERRORS.append((getattr(args.thread, "name", "?"), getattr(args.exc_type, "__name__", str(args.exc_type))))
 
 
 class Client:
@@ -409,6 +457,8 @@ class History:
         self.nsock = 0
         self.sent = {}
         self.fast = bool(job.get("fast"))
+        self.stalling = set()
+        del THREAD_ERRORS[:]
 
     # ------------------------------------------------------------ set-up / tear-down
     def start(self):
@@ -439,7 +489,9 @@ class History:
             kw["hostname"] = "127.0.0.1"
             kw["port"] = 0
         if cfg["auth"]:
-            kw["authenticator"] = toy_authenticator
+            kw["authenticator"] = wrapping_authenticator if cfg.get("wrap") else toy_authenticator
+        # a nested request the server makes to a client waits for ever (the default would give up after 30 s: same thing, later)
+        kw["protocol_config"] = {"sync_request_timeout": None}
         cls = {"threaded": S.ThreadedServer, "pool": S.ThreadPoolServer, "oneshot": S.OneShotServer}[cfg["kind"]]
         if cfg["kind"] == "pool":
             kw["nbThreads"] = cfg["nw"]
@@ -503,9 +555,11 @@ class History:
         d = {"active": bool(srv.active), "closed": bool(srv._closed), "lopen": srv.listener.fileno() != -1}
         cl = []
         for s in list(srv.clients):
+            if self.cfg.get("wrap") and s.fileno() == -1 and self.cfg["kind"] != "pool":
+                continue        # the original the authenticator detached: no descriptor, gone with the worker's `finally`
             c = self.sock_cid.get(s, -1)
             cl.append(c)
-        d["clients"] = sorted(cl)
+        d["clients"] = sorted(set(cl))
         d["clients_closed_socks"] = sum(1 for s in list(srv.clients) if s.fileno() == -1)
         fdmap, pollset, queue = [], [], []
         fd_cid = {}
@@ -714,7 +768,7 @@ class History:
                 self.violation("threads:%s:left-after-all-clients-left" % kind, idx, observed=threading.active_count() - self.base_threads, expected=tw,
                                what="worker threads remain after every client has left")
 
-    def check_close(self, idx, first):
+    def check_close(self, idx, first, after_close=None, why=None):
         """close(): listener stopped, every connected client sees end-of-stream promptly, hooks ran once, nothing left; twice is harmless"""
         if self.tainted or self.job.get("probe") == "c16":
             if not self.tainted:
@@ -739,6 +793,20 @@ class History:
         t.start()
         t.join(self.B())
         hung = t.is_alive()
+        if after_close is not None:
+            after_close()
+        if why == "race" and not hung:
+            # the accept that was held inside its window now finishes; what it registered on the closed server is the evidence
+            wait_until(lambda: (not self.thread.is_alive()) or list(srv.clients) or (kind == "pool" and dict(srv.fd_to_conn)), self.B())
+            if kind == "pool":
+                self.thread.join(self.B())      # start()'s own close() in its `finally` drops what a late accept registered
+            kept = len(list(srv.clients)) + (len(dict(srv.fd_to_conn)) if kind == "pool" else 0)
+            if kept:
+                self.violation("close-misses-connection-being-accepted:%s" % kind, idx, observed={"closed": bool(srv._closed), "clients": len(list(srv.clients)),
+                               "fd_to_conn": len(getattr(srv, "fd_to_conn", {}))}, expected="nothing registered after close()",
+                               what="a close() that runs between accept()'s `active` test and clients.add(sock) misses the socket: the closed server registers and serves that client")
+                self.tainted = True
+                return
         if hung:
             self.close_returned = False
         elif "exc" in res:
@@ -783,10 +851,19 @@ class History:
                     got = type(e).__name__
                 if got != "EOFError":
                     left.append((c.cid, got))
+            elif c.accepted and c.cid not in self.sent and c.cid not in self.stalling and not left:
+                # positive evidence instead of a timeout: ask once more -- an ANSWER means the connection is still being served
+                got = self.ping_after_close(c)
+                if got != "eof":
+                    left.append((c.cid, got))
             elif not wait_until(c.sees_eof, self.B() if not left else 0.2):
                 left.append((c.cid, "no end-of-stream"))
         if left:
-            self.violation("close-leaves-client-connected:%s" % kind, idx, observed=left + (["close() itself did not return"] if hung else []),
+            if why is None and self.cfg.get("wrap") and self.cfg["auth"] and kind in ("threaded", "oneshot"):
+                why = "socket-replaced-by-authenticator"
+            sig = ("close-misses-connection-being-accepted:%s" % kind) if why == "race" else \
+                  "close-leaves-client-connected:%s%s" % (kind, ":" + why if why else "")
+            self.violation(sig, idx, observed=left + (["close() itself did not return"] if hung else []),
                            expected="end-of-stream for every connected client",
                            what="Server.close() does not terminate the connections being served: the clients stay connected")
             self.tainted = True       # everything else that is wrong from here on follows from this
@@ -994,8 +1071,13 @@ class History:
         """thread pool: at least nbThreads connected clients have sent an unfinished frame (each occupies a worker for good)"""
         if self.cfg["kind"] != "pool":
             return False
-        n = sum(1 for c, b in self.sent.items() if c in self.clients and not self.clients[c].gone and pending_incomplete(b))
+        n = len(self.blockers())
         return n >= self.cfg["nw"]
+
+    def blockers(self):
+        out = set(c for c, b in self.sent.items() if c in self.clients and not self.clients[c].gone and pending_incomplete(b))
+        out |= set(c for c in self.stalling if c in self.clients and not self.clients[c].gone)
+        return out
 
     def starvation_cause(self):
         """why a well-behaved client of a running thread pool is not being served, read off the server's thread stacks:
@@ -1015,8 +1097,10 @@ class History:
         stalled = [c for c in self.clients.values() if c.connected and not c.gone and getattr(c, "auth", AUTH_OK) == AUTH_STALL]
         if self.cfg["auth"] and stalled and inside(self.thread, "C17.py", "toy_authenticator"):
             return "accept-loop-blocked-by-pending-authentication"
-        if self.workers_all_blocked() and all(inside(t, os.path.join("core", "stream.py"), "read") for t in self.srv.workers):
-            return "workers-blocked-in-unfinished-reads"
+        if self.workers_all_blocked() and all(inside(t, os.path.join("utils", "server.py"), "_serve_requests") for t in self.srv.workers):
+            if all(inside(t, os.path.join("core", "stream.py"), "read") for t in self.srv.workers) and not (self.blockers() & self.stalling):
+                return "workers-blocked-in-unfinished-reads"
+            return "workers-blocked-by-stalling-clients"
         return None
 
     def await_good(self, done, expected):
@@ -1082,6 +1166,107 @@ class History:
             except OSError:
                 got = "eof"
         self.replies.append(["kill", got])
+        self.settle(idx)
+
+    def do_stall(self, idx, cid):
+        """the client makes the server ask IT something (unsolicited reply with a remote reference -> nested HANDLE_INSPECT) and never answers"""
+        cl = self.clients[cid]
+        if cl.sock is not None:
+            try:
+                cl.sock.sendall(R.frame(R.msg(R.MSG_REPLY, 7000 + idx, (R.LABEL_REMOTE_REF, ("verif.Mute", 4343, 2000000 + idx))), False))
+            except OSError:
+                pass
+        self.stalling.add(cid)
+        self.sent[cid] = self.sent.get(cid, b"")
+        self.replies.append(["stall"])
+        self.settle(idx)
+
+    def do_emfile(self, idx, cid):
+        """a client connects while the process has no descriptor left: accept() fails with EMFILE until the limit is lifted again"""
+        import resource, socket
+        cl = Client(cid, "raw")
+        self.clients[cid] = cl
+        cl.auth = AUTH_OK
+        fillers = []
+        soft, hard = resource.getrlimit(resource.RLIMIT_NOFILE)
+        died = False
+        try:
+            if self.cfg["transport"] == "unix":
+                s = socket.socket(socket.AF_UNIX, socket.SOCK_STREAM)
+                self.nsock += 1
+                s.bind(b"\0verif-c17-%d-%d-%d" % (os.getpid(), id(self) & 0xffffff, self.nsock))
+            else:
+                s = socket.socket(socket.AF_INET, socket.SOCK_STREAM)
+            top = max(int(x) for x in os.listdir("/proc/self/fd"))
+            while True:                      # no free descriptor number below the limit we are about to set
+                fd = os.dup(0)
+                fillers.append(fd)
+                if fd > top:
+                    top = fd
+                    break
+            resource.setrlimit(resource.RLIMIT_NOFILE, (top + 1, hard))
+            try:
+                s.settimeout(5)
+                s.connect(self.addr)
+                s.settimeout(None)
+                cl.sock, cl.connected = s, True
+                if self.cfg["auth"]:
+                    s.sendall(b"OKAY")
+            except OSError:
+                cl.gone = True
+            # the accept loop now meets EMFILE; give it a moment (a dead accept thread stays dead: that is the verdict, not the time)
+            t0 = time.monotonic()
+            while time.monotonic() - t0 < 1.0 and self.thread.is_alive():
+                time.sleep(0.01)
+            died = not self.thread.is_alive()
+        finally:
+            resource.setrlimit(resource.RLIMIT_NOFILE, (soft, hard))
+            for fd in fillers:
+                try:
+                    os.close(fd)
+                except OSError:
+                    pass
+        if cl.sock is not None:
+            try:
+                self.addr_cid[norm_addr(cl.sock.getsockname())] = cid
+            except OSError:
+                pass
+        if (died or not self.srv.active) and not self.closed_called:
+            self.violation("accept-loop-ended-on-oserror:%s" % self.cfg["kind"], idx, observed={"accept thread alive": self.thread.is_alive(), "active": bool(self.srv.active), "closed": bool(self.srv._closed)},
+                           expected="the server keeps running and accepts the client once a descriptor is free",
+                           what="accept() failed with EMFILE (descriptor limit reached by connections): the accept loop ended and start() closed the server, throwing every client out")
+            self.tainted = True
+        self.replies.append(["emfile", died])
+        self.settle(idx, cid)
+
+    def do_race(self, idx, cid):
+        """close() runs to completion while accept() is between `if not self.active: return` and `self.clients.add(sock)`"""
+        cl = Client(cid, "raw")
+        self.clients[cid] = cl
+        cl.auth = AUTH_OK
+        reached, go = threading.Event(), threading.Event()
+        self.srv.clients.hold = (reached, go)
+        s = self._raw_connect(5.0)
+        if s is None:
+            cl.gone = True
+            self.srv.clients.hold = None
+            self.replies.append(["refused"])
+            self.settle(idx)
+            return
+        cl.sock, cl.connected = s, True
+        self.addr_cid[norm_addr(s.getsockname())] = cid
+        if self.cfg["auth"]:
+            try:
+                s.sendall(b"OKAY")
+            except OSError:
+                pass
+        busy_inline = self.cfg["kind"] == "oneshot" and len(self.rec.connects) > 0     # a one-shot server serving somebody never gets to accept
+        in_window = reached.wait(1.0 if busy_inline else self.B())
+        first = not self.closed_called
+        self.closed_called = True
+        self.check_close(idx, first, after_close=go.set, why="race" if in_window else None)
+        go.set()
+        self.replies.append(["race", bool(in_window)])
         self.settle(idx)
 
     def do_call(self, idx, cid, n):
@@ -1153,6 +1338,24 @@ class History:
                                expected=[True, False, False], what="a one-shot server did not shut itself down after serving its one connection")
                 self.tainted = True
 
+    def ping_after_close(self, cl):
+        """-> 'eof' | 'answered' | 'no end-of-stream'"""
+        try:
+            cl.seq += 1
+            cl.sock.sendall(R.frame(R.msg(R.MSG_REQUEST, cl.seq, (H["PING"], (R.LABEL_VALUE, (b"still there?",)))), False))
+        except OSError:
+            return "eof"
+        t0 = time.monotonic()
+        while time.monotonic() - t0 < self.B():
+            m = cl.next_message(0)
+            if m == "eof":
+                return "eof"
+            if isinstance(m, tuple) and len(m) == 3 and m[0] in (R.MSG_REPLY, R.MSG_EXCEPTION) and m[1] == cl.seq:
+                return "answered"
+            if m == "timeout":
+                time.sleep(0.003)
+        return "no end-of-stream"
+
     def do_srvclose(self, idx):
         first = not self.closed_called
         self.closed_called = True
@@ -1178,6 +1381,12 @@ class History:
                     self.do_call(idx, it[1], it[2])
                 elif op == "kill":
                     self.do_kill(idx, it[1])
+                elif op == "stall":
+                    self.do_stall(idx, it[1])
+                elif op == "emfile":
+                    self.do_emfile(idx, it[1])
+                elif op == "race":
+                    self.do_race(idx, it[1])
                 elif op == "leave":
                     self.do_leave(idx, it[1], it[2])
                 elif op == "srvclose":
@@ -1188,7 +1397,7 @@ class History:
         finally:
             self.stop()
         return {"id": self.job.get("id"), "obs": self.obs, "replies": self.replies, "oracle": self.oracle, "mismatch": self.mismatch,
-                "stats": self.stats, "thread_errors": self.rec.thread_errors}
+                "stats": self.stats, "thread_errors": [list(x) for x in THREAD_ERRORS]}
 
     def failed_good_client(self, idx):
         wb = (self.job.get("wb") or [False] * len(self.items))[idx]
@@ -1224,7 +1433,7 @@ def worker_main():
     """helper process: one JSON job per line on stdin, one JSON result per line on stdout"""
     out = os.fdopen(os.dup(1), "w")
     os.dup2(2, 1)                      # anything printed by library code goes to stderr
-    threading.excepthook = lambda args: None
+    threading.excepthook = _thread_excepthook
     try:
         import harness.C16  # noqa: F401  (registers its probes)
     except Exception:
@@ -1362,6 +1571,10 @@ def run_forking_job(job):
     try:
         info = json.loads(p.stdout.readline())
         port = info["port"]
+        try:
+            base_parent_fds = len(os.listdir("/proc/%d/fd" % info["pid"]))
+        except OSError:
+            base_parent_fds = 10 ** 6
 
         def hooks():
             return open(hookfile).read().split("\n")
@@ -1424,6 +1637,22 @@ def run_forking_job(job):
                 ok = wait_until(lambda: any(l.startswith("closed ") for l in hooks()), B)
                 closed = True
                 log.append("closed" if ok else "close-not-finished")
+                if ok:
+                    # what the parent reported right after close(); close(): Server.clients empty, listener descriptor gone
+                    parts = [l for l in hooks() if l.startswith("closed ")][0].split()
+                    if parts[1] != "0" or parts[2] != "-1":
+                        oracle.append({"sig": "tables-not-empty-after-close:forking", "item": idx, "observed": parts[1:3], "expected": ["0", "-1"],
+                                       "what": "the forking server's parent still holds client sockets or its listener after close()"})
+                    try:
+                        def pfds():
+                            return len(os.listdir("/proc/%d/fd" % info["pid"]))
+                        wait_until(lambda: pfds() <= base_parent_fds - 1, B)
+                        nfd = pfds()
+                        if nfd > base_parent_fds - 1:
+                            oracle.append({"sig": "descriptors:forking:parent-leak-after-close", "item": idx, "observed": nfd, "expected": "<= %d" % (base_parent_fds - 1),
+                                           "what": "the forking server's parent holds more descriptors after close() than before it accepted anybody (minus the listener)"})
+                    except OSError:
+                        pass
                 if not ok:
                     oracle.append({"sig": "close-does-not-return:forking", "item": idx, "observed": "no report", "expected": "close returns", "what": "ForkingServer.close() did not finish"})
                 # every connected client must now see end-of-stream
@@ -1592,6 +1821,18 @@ class Gen:
         if self.busy == c:
             self.busy = None
 
+    def race(self):
+        """close() inside the window of an accept"""
+        c = self.next_cid
+        self.next_cid += 1
+        self.items.append(["race", c])
+        self.ever.append(c)
+        self.alive[c] = {"ckind": "raw", "auth": AUTH_OK, "served": False, "blocked": False}
+        self.tables[c] = []
+        self.closed = True
+        for a in self.alive.values():
+            a["served"] = False
+
     def srvclose(self):
         self.items.append(["srvclose"])
         self.closed = True
@@ -1601,8 +1842,9 @@ class Gen:
 
 def gen_cfg(r, kinds=("threaded", "pool", "oneshot")):
     kind = r.choice(kinds)
-    return {"kind": kind, "transport": r.choice(["tcp", "tcp", "unix"]), "auth": r.random() < 0.3, "cls": r.random() < 0.75,
-            "nw": r.choice([1, 2, 2, 3]), "batch": r.choice([1, 2, 3, 10])}
+    auth = r.random() < 0.3
+    return {"kind": kind, "transport": r.choice(["tcp", "tcp", "unix"]), "auth": auth, "cls": r.random() < 0.75,
+            "nw": r.choice([1, 2, 2, 3]), "batch": r.choice([1, 2, 3, 10]), "wrap": auth and r.random() < 0.5}
 
 
 def gen_history(r, quick=True, kinds=("threaded", "pool", "oneshot"), hostile=0.08):
@@ -1614,7 +1856,10 @@ def gen_history(r, quick=True, kinds=("threaded", "pool", "oneshot"), hostile=0.
     g.connect()
     for step in range(nsteps):
         if close_at == step and not g.closed:
-            g.srvclose()
+            if r.random() < 0.2 and g.busy is None and len(g.ever) < 6 and not (cfg["kind"] == "oneshot" and g.ever):
+                g.race()
+            else:
+                g.srvclose()
             if r.random() < 0.6:
                 g.srvclose()
             continue
@@ -1674,6 +1919,17 @@ def witnesses():
             out.append((dict(base), [["connect", 1, "raw", 0], ["send", 1, struct.pack(">IB", 100, 0).hex()], ["leave", 1, "rst"], ["srvclose"]]))
     out.append(({"kind": "oneshot", "transport": "tcp", "auth": False, "cls": True, "nw": 1, "batch": 1},
                 [["connect", 1, "raw", 0], ["connect", 2, "raw", 0], ["req", 1, QROOT, None, 0], ["leave", 1, "fin"], ["connect", 3, "raw", 0], ["srvclose"]]))
+    for kind in ("threaded", "pool", "oneshot"):
+        for transport in ("tcp", "unix"):
+            base = {"kind": kind, "transport": transport, "auth": True, "cls": True, "nw": 2, "batch": 10, "wrap": True}
+            # an authenticator that hands back another socket object (TLS does): close() must still reach the client
+            out.append((dict(base), [["connect", 1, "raw", 0], ["req", 1, QROOT, None, 0], ["srvclose"], ["srvclose"]]))
+            out.append((dict(base), [["connect", 1, "rpyc", 0], ["call", 1, 3], ["connect", 2, "raw", 0], ["leave", 2, "fin"], ["srvclose"]]))
+            out.append((dict(base), [["connect", 1, "raw", 0], ["req", 1, QROOT, None, 0], ["leave", 1, "close"], ["connect", 2, "raw", AUTH_FAIL], ["srvclose"]]))
+            # close() inside the window of accept()
+            base = {"kind": kind, "transport": transport, "auth": False, "cls": True, "nw": 2, "batch": 10}
+            out.append((dict(base), [["race", 1], ["srvclose"]]))
+            out.append((dict(base), [["connect", 1, "raw", 0], ["req", 1, QROOT, None, 0], ["race", 2], ["leave", 1, "fin"]]))
     return out
 
 
@@ -1707,6 +1963,8 @@ def key_of(cfg, items):
 def nontrivial(cfg, items):
     ops = [it[0] for it in items]
     n_conn = ops.count("connect")
+    if "race" in ops:
+        return True
     if "srvclose" in ops:
         i = ops.index("srvclose")
         alive = set()
@@ -1738,22 +1996,24 @@ def well_behaved(cfg, items, j):
     """is the client of item j a well-behaved client of a running server at that point (by the history alone)?
     authenticated, speaks only well-formed requests, the server was not closed, and (one-shot) it is the first client"""
     it = items[j]
-    if it[0] not in ("connect", "req", "call"):
+    if it[0] not in ("connect", "req", "call", "emfile"):
         return False
     c = it[1]
     first = None
-    seen_connect = it[0] == "connect"
+    seen_connect = it[0] in ("connect", "emfile")
     for k in range(j):
         o = items[k]
         if o[0] == "srvclose":
             return False
-        if o[0] == "connect" and first is None:
+        if o[0] in ("connect", "emfile", "race") and first is None:
             first = o[1]
+        if o[0] == "emfile" and o[1] == c:
+            seen_connect = True
         if o[0] == "connect" and o[1] == c:
             seen_connect = True
             if cfg["auth"] and o[3] != AUTH_OK:
                 return False
-        if o[0] in ("send", "kill") and o[1] == c:
+        if o[0] in ("send", "kill", "stall") and o[1] == c:
             return False
         if o[0] == "leave" and o[1] == c:
             return False
@@ -1765,6 +2025,27 @@ def well_behaved(cfg, items, j):
     if cfg["kind"] == "oneshot" and first != c:
         return False
     return seen_connect
+
+
+def clean_history(items):
+    """nothing in it explains an exception in a server thread: only well-formed requests, graceful leaves, no close()"""
+    for it in items:
+        if it[0] in ("send", "kill", "stall", "emfile", "race", "srvclose", "hostile"):
+            return False
+        if it[0] == "leave" and it[2] == "rst":
+            return False
+        if it[0] == "connect" and it[3] != AUTH_OK:
+            return False
+    return True
+
+
+def compared_floor(ctx, floor=0.75):
+    """finding a regression that silently switches the correspondence off: the share of events compared with the model must stay above a floor"""
+    tot = ctx.dist.get("events:total", 0)
+    cmp_ = ctx.dist.get("events:compared-with-model", 0)
+    ctx.coverage_extra["events_compared_with_model"] = "%d of %d" % (cmp_, tot)
+    if tot and cmp_ < floor * tot:
+        ctx.tie_broken("correspondence:coverage-below-floor", "only %d of %d events were compared with the model (floor %.0f%%)" % (cmp_, tot, 100 * floor))
 
 
 def evaluate(ctx, label, batch, model, facts, farm, probe=None, nontrivial_fn=None):
@@ -1784,6 +2065,8 @@ def evaluate(ctx, label, batch, model, facts, farm, probe=None, nontrivial_fn=No
             snaps.append(None)
         jobs.append(job)
     mouts = [None] * len(batch)
+    fuel_out = []
+    cfg_of = [b[0] for b in batch]
     if model is not None:
         idx = [i for i, c in enumerate(cases) if c is not None]
         outs = model.batch([cases[i] for i in idx])
@@ -1793,8 +2076,14 @@ def evaluate(ctx, label, batch, model, facts, farm, probe=None, nontrivial_fn=No
         if mouts[i] is not None:
             exp = []
             starved = False
-            for s in snaps[i]:
+            for j, s in enumerate(snaps[i]):
                 q, st = mouts[i][s]
+                if not q:
+                    fuel_out.append((cfg_of[i], j))
+                if job["items"][j][0] == "emfile" and not facts[5]:
+                    starved = True       # the server shuts itself down while the client it just accepted is being set up: who wins is thread timing
+                if job["items"][j][0] == "race" and not facts[6]:
+                    starved = True       # the model takes accept() as one step: it has no prediction for the race on a tree without the re-check
                 exp.append(project(st) if (q and not starved) else None)
                 if q and st[0] and st[7]:
                     # quiescent with a non-empty active queue: every worker is stuck.  From here on the order in which freed
@@ -1805,7 +2094,7 @@ def evaluate(ctx, label, batch, model, facts, farm, probe=None, nontrivial_fn=No
             job["expect_pre"] = {}
             for k, si in job["_pre"].items():
                 q, st = mouts[i][si]
-                if q:
+                if q and exp[k] is not None:
                     job["expect_pre"][str(k)] = project(st)
             job["expect_reply"] = [items_j[0] != "req" or reply_expected(mouts[i], snaps[i], j, items_j) is not None
                                    for j, items_j in enumerate(job["items"])]
@@ -1822,7 +2111,9 @@ def evaluate(ctx, label, batch, model, facts, farm, probe=None, nontrivial_fn=No
             if job["wb"][j] and isinstance(rep, list) and rep and rep[0] == "connected" and not rep[1] and not (len(rep) > 2 and rep[2]):
                 return True
         return False
-    compared = [job.pop("_compared", len(job["items"])) for job in jobs]
+    compared = [job.pop("_compared", 0 if mouts[k] is None else len(job["items"])) for k, job in enumerate(jobs)]
+    for cfgx, j in fuel_out[:3]:
+        ctx.tie_broken("model:drain-out-of-fuel", "the model did not reach quiescence within its fuel at event %d of a history on %r" % (j, cfgx))
     for job in jobs:
         job.pop("_pre", None)
     results = farm.map(jobs, is_failure)
@@ -1867,6 +2158,13 @@ def evaluate(ctx, label, batch, model, facts, farm, probe=None, nontrivial_fn=No
         if mouts[i] is None:
             continue
         ctx.model_traces += 1
+        ctx.count("events:total", len(items))
+        ctx.count("events:compared-with-model", min(compared[i], len(res.get("obs", []))))
+        for nm, ty in res.get("thread_errors", []):
+            ctx.count("thread-exception:" + ty)
+        if res.get("thread_errors") and clean_history(items):
+            ctx.tie_broken("harness:unexpected-thread-exception", "a server thread ended with %r in a history without any hostile event or close: cfg %r items %r"
+                           % (res["thread_errors"][:3], cfg, items))
         if res["mismatch"]:
             m = res["mismatch"][0]
             ctx.tie_broken("correspondence:server-state", "cfg %r items %r: event %d: %s" % (cfg, items, m["item"], m["diffs"]))
@@ -1909,7 +2207,7 @@ def run(ctx):
     if model is None:
         ctx.tie_broken("runner:server", "extracted model not built")
     facts = gen_facts()
-    ctx.coverage_extra["facts"] = dict(zip(("pool_close_drops", "pool_fail_discards", "fork_parent_keeps", "pool_catches_base"), facts))
+    ctx.coverage_extra["facts"] = dict(zip(FACT_NAMES, facts))
     ctx.coverage_extra["rule"] = (
         "a case is one history against one real server: kind in threaded/pool/one-shot (uniform), TCP loopback (2/3) or unix socket, toy authenticator 30%, service "
         "registered as class 75% / instance, pool of 1-3 workers with batch 1/2/3/10; 3-11 (quick) / 3-21 events by up to 5 clients: connect (raw-protocol client or real "
@@ -1925,6 +2223,7 @@ def run(ctx):
         batch = [gen_history(r, ctx.quick) for _ in range(n_rand)]
         evaluate(ctx, "random", batch, model, facts, farm)
         evaluate(ctx, "forking", forking_jobs(r, n_fork), None, facts, farm)
+        compared_floor(ctx)
     finally:
         farm.close()
 
